@@ -698,10 +698,20 @@ impl<'de> de::Deserializer<'de> for Variable {
                     Err(de::Error::invalid_length(len, &"fewer elements in array"))
                 }
             }
-            Variable::Object(v) => visitor.visit_map(MapDeserializer {
-                iter: v.into_iter(),
-                value: None,
-            }),
+            Variable::Object(v) => {
+                let len = v.len();
+                let mut deserializer = MapDeserializer {
+                    iter: v.into_iter(),
+                    value: None,
+                };
+                let map = visitor.visit_map(&mut deserializer)?;
+                // Like serde_json: entries the visitor did not consume are an error.
+                if deserializer.iter.len() == 0 {
+                    Ok(map)
+                } else {
+                    Err(de::Error::invalid_length(len, &"fewer elements in map"))
+                }
+            }
             Variable::Expref(v) => visitor.visit_string(format!("<expression: {:?}>", v)),
         }
     }
